@@ -208,6 +208,8 @@ func checkC06(c *Ctx) {
 		}
 	}
 	c.Floor("C06.R6", "backoff functions", nBack, 1)
+	c.Rule("C06.R7", "one attempt is one send: no header write on the outgoing delivery request can name Idempotency-Key / X-Idempotency-Key (constant names are compared, data-driven names need an excluding guard), the names that make net/http's transport re-send a POST with a rewindable body on its own — unless GetBody is cleared")
+	checkTransportReplay(c, "C06.R7")
 }
 
 // structFieldStores: constants / values stored into fields of a local struct cell.
